@@ -27,7 +27,7 @@ def conformance(chk, sym, quick, nshards=8, drift_cap=150):
     """Returns (wrong, drift_sample): lists of recorded events (content = list of ints, qr: p = [level, API mode]). Records coverage in chk.cov['encoder_model_conformance']."""
     cov = chk.cov.setdefault("encoder_model_conformance", {})
     try:
-        binary = vlib.build_harness(chk.work, tags="verif verifenc", cmd="encdump")
+        binary = vlib.build_harness(chk.work, tags="verif verifenc enc_" + sym, cmd="encdump", suffix="-" + sym)
     except vlib.Inconclusive as e:
         cov[sym] = dict(skipped="accessors do not build against this tree: " + str(e)[-300:])
         return [], []
@@ -62,7 +62,7 @@ def dims_conformance(chk, drift_cap=60):
     Returns (wrong, drift_sample) as lists of (m, lv)."""
     cov = chk.cov.setdefault("encoder_model_conformance", {})
     try:
-        binary = vlib.build_harness(chk.work, tags="verif verifenc", cmd="encdump")
+        binary = vlib.build_harness(chk.work, tags="verif verifenc enc_pdf", cmd="encdump", suffix="-pdf")
     except vlib.Inconclusive as e:
         cov["pdfdims"] = dict(skipped="accessors do not build against this tree: " + str(e)[-300:])
         return [], []
@@ -92,7 +92,7 @@ def aztec_selection(chk, quick, drift_cap=120):
     API with pixels (and, for C13, in pairs with the automatic choice)."""
     cov = chk.cov.setdefault("encoder_model_conformance", {})
     try:
-        binary = vlib.build_harness(chk.work, tags="verif verifenc", cmd="encdump")
+        binary = vlib.build_harness(chk.work, tags="verif verifenc enc_aztec", cmd="encdump", suffix="-aztec")
     except vlib.Inconclusive as e:
         cov["aztec_selection"] = dict(skipped="accessors do not build against this tree: " + str(e)[-300:])
         return []
